@@ -582,9 +582,14 @@ def _node_publication(repo: Repo, R: Report, rule: str, qn: str) -> int:
         R.check(g.ret_exit not in seen, rule, NODES, qn, "after process() the publication loop is entered unless nothing was materialised", "the node can return without publishing the materialised sequences", line, path)
 
         # (c) the context written is the one handed on
-        rets = find(nf, "return Payload(_A_, _C_)")
-        ctxs = {_u(c.args[0]) for c in writes}
-        ok = bool(rets) and all({_u(e["_C_"])} == ctxs for _r, e in rets)
+        # (the returned value is expanded to its reaching definitions: `out = Payload(..); return out` is the same return)
+        FN = Flow(nf)
+        rx = [x for r_ in walk_no_nested(FN.fn) if isinstance(r_, ast.Return) and r_.value is not None for x in FN.expand(r_.value, FN.nid(r_))]
+        pms = [m_ for m_ in (kany(["Payload(_A_, _C_)", "Payload(_A_, context=_C_)", "Payload(data=_A_, context=_C_)"], x) for x in rx) if m_ is not None]
+        lp_fn = next((n for n in walk_no_nested(FN.fn) if isinstance(n, ast.For) and getattr(n, "lineno", None) == getattr(lp, "lineno", None) and _u(n.iter) == _u(lp.iter)), None)
+        w_fn = [c for c, _e in find(lp_fn, f"_O_.update_context(_CTX_, {k}, {v})")] if lp_fn is not None else []
+        wctx = {ast.dump(x) for c in w_fn for x in FN.expand(c.args[0], FN.nid(c))}
+        ok = bool(pms) and bool(wctx) and all({ast.dump(m_["_C_"])} == wctx for m_ in pms)
         R.check(ok, rule, NODES, qn, "the sequences are written into the context returned in the Payload", "the materialised sequences are written into a context other than the one passed downstream", line)
     return found
 
@@ -1010,6 +1015,476 @@ def _element_parameters(repo: Repo, R: Report) -> None:
         R.check(dumps is not None and dumps == bf_dumps, rule, SWEEP, CREATE, "the generated signature declares the required and optional external parameters", f"`{_u(c)[:140]}`: the parameters declared by the generated signature are not the ones whose provided values are handed to the element (`{bf}`): the node does not fetch a declared-away parameter and the processor's default is used", c.lineno)
 
 
+# ---------------------------------------------------------------------------------------------------------
+# D6 (upper bound of a log range): a small algebraic normal form
+# ---------------------------------------------------------------------------------------------------------
+# An expression over a range spec's fields is reduced to a rational function (quotient of two polynomials with
+# exact coefficients) in the symbols A = log10(lo), B = log10(hi), n = steps, lo, hi.  log10 of a product / quotient /
+# power of ten is taken apart (log10(x * 10 ** y) = log10(x) + y), so every spelling of the same formula has the same
+# normal form and two formulas are compared by cross-multiplication.  No search, no solver: one bottom-up pass.
+
+from fractions import Fraction
+
+_Poly = Dict[Tuple[Tuple[str, int], ...], Fraction]
+_Rat = Tuple[_Poly, _Poly]
+LINEAR = "linear"  # marker: log10 of something that is a sum in lo / hi (not a product): the formula works in linear space
+
+
+def _p_const(c) -> _Poly:
+    return {(): Fraction(c)} if c != 0 else {}
+
+
+def _p_sym(s: str) -> _Poly:
+    return {((s, 1),): Fraction(1)}
+
+
+def _p_add(a: _Poly, b: _Poly, sign: int = 1) -> _Poly:
+    out = dict(a)
+    for m, c in b.items():
+        v = out.get(m, Fraction(0)) + sign * c
+        if v == 0:
+            out.pop(m, None)
+        else:
+            out[m] = v
+    return out
+
+
+def _p_mul(a: _Poly, b: _Poly) -> _Poly:
+    out: _Poly = {}
+    for m1, c1 in a.items():
+        for m2, c2 in b.items():
+            pw: Dict[str, int] = {}
+            for s, k in m1 + m2:
+                pw[s] = pw.get(s, 0) + k
+            m = tuple(sorted(pw.items()))
+            v = out.get(m, Fraction(0)) + c1 * c2
+            if v == 0:
+                out.pop(m, None)
+            else:
+                out[m] = v
+    return out
+
+
+def _r(p: _Poly) -> _Rat:
+    return (p, _p_const(1))
+
+
+def _r_add(a: _Rat, b: _Rat, sign: int = 1) -> _Rat:
+    return (_p_add(_p_mul(a[0], b[1]), _p_mul(b[0], a[1]), sign), _p_mul(a[1], b[1]))
+
+
+def _r_mul(a: _Rat, b: _Rat) -> _Rat:
+    return (_p_mul(a[0], b[0]), _p_mul(a[1], b[1]))
+
+
+def _r_div(a: _Rat, b: _Rat) -> Optional[_Rat]:
+    return None if not b[0] else (_p_mul(a[0], b[1]), _p_mul(a[1], b[0]))
+
+
+def _r_eq(a: _Rat, b: _Rat) -> bool:
+    return _p_mul(a[0], b[1]) == _p_mul(b[0], a[1])
+
+
+def _range_algebra(spec: str):
+    """(val, lg): normal form of an expression over `<spec>.lo/.hi/.steps`, and of its log10.  Each returns a rational
+    function, LINEAR (see above) or None (a construct the normal form does not cover)."""
+    LOG10 = ("np.log10", "numpy.log10", "math.log10", "log10")
+
+    def field(e: ast.AST) -> Optional[str]:
+        if isinstance(e, ast.Attribute) and isinstance(e.value, ast.Name) and e.value.id == spec and e.attr in ("lo", "hi", "steps"):
+            return e.attr
+        return None
+
+    def num(e: ast.AST):
+        m = kany(["float(_X_)", "int(_X_)"], e)
+        if m and isinstance(m["_X_"], ast.Constant):
+            e = m["_X_"]
+        if isinstance(e, ast.Constant) and isinstance(e.value, (int, float)) and not isinstance(e.value, bool):
+            return Fraction(e.value)
+        return None
+
+    def val(e: ast.AST, depth: int = 0):
+        if depth > 40:
+            return None
+        c = num(e)
+        if c is not None:
+            return _r(_p_const(c))
+        f = field(e)
+        if f is not None:
+            return _r(_p_sym({"steps": "n"}.get(f, f)))
+        if isinstance(e, ast.Call) and dotted_name(e.func) in LOG10 and len(e.args) == 1 and not e.keywords:
+            return lg(e.args[0], depth + 1)
+        m = kany(["float(_X_)"], e)
+        if m:
+            return val(m["_X_"], depth + 1)
+        if isinstance(e, ast.UnaryOp) and isinstance(e.op, (ast.USub, ast.UAdd)):
+            x = val(e.operand, depth + 1)
+            if x is None or x == LINEAR:
+                return x
+            return _r_mul(_r(_p_const(-1)), x) if isinstance(e.op, ast.USub) else x
+        if isinstance(e, ast.BinOp):
+            if isinstance(e.op, ast.Pow):
+                k = num(e.right)
+                x = val(e.left, depth + 1)
+                if x is None or x == LINEAR or k is None or k.denominator != 1 or not 0 <= k <= 6:
+                    return None if x != LINEAR else LINEAR
+                out = _r(_p_const(1))
+                for _ in range(int(k)):
+                    out = _r_mul(out, x)
+                return out
+            if not isinstance(e.op, (ast.Add, ast.Sub, ast.Mult, ast.Div)):
+                return None
+            x, y = val(e.left, depth + 1), val(e.right, depth + 1)
+            if x is None or y is None:
+                return None
+            if x == LINEAR or y == LINEAR:
+                return LINEAR
+            if isinstance(e.op, ast.Add):
+                return _r_add(x, y)
+            if isinstance(e.op, ast.Sub):
+                return _r_add(x, y, -1)
+            if isinstance(e.op, ast.Mult):
+                return _r_mul(x, y)
+            return _r_div(x, y)
+        return None
+
+    def lg(e: ast.AST, depth: int = 0):
+        if depth > 40:
+            return None
+        f = field(e)
+        if f == "lo":
+            return _r(_p_sym("A"))
+        if f == "hi":
+            return _r(_p_sym("B"))
+        c = num(e)
+        if c is not None:
+            return _r(_p_const(1)) if c == 10 else _r(_p_const(0)) if c == 1 else None
+        m = kany(["float(_X_)"], e)
+        if m:
+            return lg(m["_X_"], depth + 1)
+        m = kany(["np.power(_X_, _Y_)", "numpy.power(_X_, _Y_)", "math.pow(_X_, _Y_)", "pow(_X_, _Y_)"], e)
+        pw = (m["_X_"], m["_Y_"]) if m else (e.left, e.right) if isinstance(e, ast.BinOp) and isinstance(e.op, ast.Pow) else None
+        if pw is not None:
+            x, y = lg(pw[0], depth + 1), val(pw[1], depth + 1)
+            if x is None or y is None:
+                return None
+            return LINEAR if LINEAR in (x, y) else _r_mul(x, y)
+        if isinstance(e, ast.BinOp) and isinstance(e.op, (ast.Mult, ast.Div)):
+            x, y = lg(e.left, depth + 1), lg(e.right, depth + 1)
+            if x is None or y is None:
+                return None
+            return LINEAR if LINEAR in (x, y) else _r_add(x, y, 1 if isinstance(e.op, ast.Mult) else -1)
+        if isinstance(e, (ast.BinOp, ast.UnaryOp)):
+            # a sum / difference: when it is plain arithmetic over lo, hi, steps the bound is computed in linear space
+            v = val(e, depth + 1)
+            return None if v is None else LINEAR
+        return None
+
+    return val, lg
+
+
+# ---------------------------------------------------------------------------------------------------------
+# D2 (what "computed by expression" means): the interface between the generated bodies and the evaluator
+# ---------------------------------------------------------------------------------------------------------
+# The generated bodies call `fn(**step)` for every compiled expression (C03-D3-variants decides that side).
+# The other side of that module boundary is the callable the evaluator hands out: the value of parameter p at a
+# step is the expression over *this step's variables* only if every name the step binds resolves to the step's
+# value when the expression is evaluated, i.e. the keyword arguments are the innermost layer of the evaluation
+# scope.  Anything layered over them (a helper table, a cached scope, a literal entry) replaces the swept value of
+# a like-named variable.
+
+_EVAL_MECHANISM_KEYS = {"__builtins__"}  # the entry eval() itself reads from its globals; not an expression name
+
+
+def _closure_factories(repo: Repo) -> List[Tuple[object, ast.AST]]:
+    """Methods of classes defined outside the sweep module that the factory's construction code (create and the
+    module-level helpers it calls) invokes on a typed receiver and that return a closure: where the callables
+    kept for the parametric expressions are made.  Found through the call graph, the receiver's annotation /
+    constructor and the shape of the returned value - not through names."""
+    mod = repo.module(SWEEP)
+    create = repo.func(SWEEP, CREATE)
+    fns: List[ast.AST] = [create]
+    seen = {id(create)}
+    i = 0
+    while i < len(fns):
+        f = fns[i]
+        i += 1
+        for c in calls_in(f, include_nested=True):
+            try:
+                targets = repo.resolve_call(mod, c)
+            except Exception:
+                targets = []
+            for tm, tn in targets:
+                if tm.rel == SWEEP and isinstance(tn, FuncNode) and id(tn) not in seen and parent(tn) is mod.tree:
+                    seen.add(id(tn))
+                    fns.append(tn)
+
+    def classes_in(e: Optional[ast.AST], ctx: ast.AST) -> List[Tuple[object, ast.ClassDef]]:
+        out = []
+        for x in ast.walk(e) if e is not None else []:
+            if isinstance(x, (ast.Name, ast.Attribute)):
+                try:
+                    r = repo.resolve_name(mod, x, ctx)
+                except Exception:
+                    r = None
+                if r is not None and isinstance(r[1], ast.ClassDef) and r[0].rel != SWEEP:
+                    out.append(r)
+        return out
+
+    def returns_closure(meth: ast.AST) -> bool:
+        nested = {n.name for n in ast.walk(meth) if isinstance(n, FuncNode) and n is not meth}
+        for r in walk_no_nested(meth):
+            if isinstance(r, ast.Return) and r.value is not None:
+                vals = [r.value] + (assigned_value(meth, r.value.id) if isinstance(r.value, ast.Name) else [])
+                if any(isinstance(v, ast.Lambda) or (isinstance(v, ast.Name) and v.id in nested) for v in vals):
+                    return True
+        return False
+
+    found: Dict[int, Tuple[object, ast.AST]] = {}
+    for f in fns:
+        a = f.args
+        ann = {p.arg: p.annotation for p in a.posonlyargs + a.args + a.kwonlyargs if p.annotation is not None}
+        for c in calls_in(f, include_nested=True):
+            if not (isinstance(c.func, ast.Attribute) and isinstance(c.func.value, ast.Name)):
+                continue
+            recv = c.func.value.id
+            cands = classes_in(ann.get(recv), f)
+            for v in assigned_value(f, recv):
+                for k in ast.walk(v):
+                    if isinstance(k, ast.Call):
+                        cands += classes_in(k.func, f)
+            for cm, cd in cands:
+                hit = repo.method(cm, cd, c.func.attr)
+                impls = [hit] if hit else []
+                for sm, sc in repo.subclasses(cd):
+                    impls += [(sm, st) for st in sc.body if isinstance(st, FuncNode) and st.name == c.func.attr]
+                for hm, h in impls:
+                    if isinstance(h, FuncNode) and returns_closure(h):
+                        found[id(h)] = (hm, h)
+    if not found:
+        # untyped receivers (no annotation, object handed on through parameters): any class the construction code
+        # instantiates or names, any method name it calls on some object
+        attrs = {c.func.attr for f in fns for c in calls_in(f, include_nested=True) if isinstance(c.func, ast.Attribute)}
+        for f in fns:
+            for cm, cd in classes_in(f, f):
+                for at_ in attrs:
+                    hit = repo.method(cm, cd, at_)
+                    if hit and isinstance(hit[1], FuncNode) and returns_closure(hit[1]):
+                        found[id(hit[1])] = hit
+    return list(found.values())
+
+
+def _expression_scope(repo: Repo, R: Report) -> None:
+    """Decided on the normal form of the closure factory (helpers inlined, naming locals substituted, also inside
+    the closure) with value expansion: every `eval(source, globals[, locals])` of the returned callable is looked at by
+    the mappings its name scope is layered from, in lookup order (locals before globals; in one mapping the later
+    layer overwrites the earlier).  Skipping the key eval() itself reads (`__builtins__`), the first layer must be the
+    callable's keyword arguments."""
+    rule = R.rule("C03-D2-expression-variables", "the callable an expression is compiled to evaluates it with the step's variables - the keyword arguments the generated bodies call it with, fn(**step) - as the innermost layer of the name scope: no helper table, cached scope or literal entry is looked up before (or written over) them, so a name the step binds always evaluates to the step's value", 1)
+    facts = _closure_factories(repo)
+    if not facts:
+        raise AnalysisError("the method that makes the callables of the sweep's parametric expressions (a closure-returning method of an evaluator class used by ParametricSweepFactory.create) was not found")
+    n_evals = 0
+    for hm, h in facts:
+        rel, hqn = hm.rel, qualname_of(h)
+        repo.consulted.add(rel)
+        FC = Flow(nfunc(repo, rel, hqn, copyprop="all", deep=True))
+        nested = [n for n in ast.walk(FC.fn) if isinstance(n, FuncNode) and n is not FC.fn and next((a for a in ancestors(n) if isinstance(a, FuncNode + (ast.Lambda,))), None) is FC.fn]
+        made: List[Tuple[ast.AST, ast.Return]] = []
+        for r in [x for x in walk_no_nested(FC.fn) if isinstance(x, ast.Return) and x.value is not None]:
+            for x in FC.expand(r.value, FC.nid(r)):
+                for leaf, _c in _split_ifexp(x) if not isinstance(x, ast.Lambda) else [(x, ())]:
+                    if isinstance(leaf, ast.Lambda):
+                        k: ast.AST = ast.parse("def _lambda_():\n    return None").body[0]
+                        k.args, k.body[0].value = leaf.args, leaf.body  # type: ignore[attr-defined]
+                        ast.copy_location(k, leaf)
+                        ast.copy_location(k.body[0], leaf)  # type: ignore[attr-defined]
+                        ast.fix_missing_locations(k)
+                        made.append((k, r))
+                    elif isinstance(leaf, ast.Name) and any(n.name == leaf.id for n in nested):
+                        made += [(n, r) for n in nested if n.name == leaf.id]
+                    else:
+                        # a memo hit: a read of a table on the evaluator that this method fills with its own closures only
+                        m = kany(["self._T_.get(_ANY_)", "self._T_[_ANY_]", "self._T_.get(_ANY_, None)"], leaf)
+                        tname = name_of(m, "_T_") if m else None
+                        stores = [st for st in walk_no_nested(FC.fn) if isinstance(st, ast.Assign) and tname and any(kmatch(f"self.{tname}[_ANY_]", t) is not None for t in st.targets)]
+                        if not (stores and all(isinstance(v_, ast.Name) and any(n.name == v_.id for n in nested) for st in stores for v_ in FC.expand(st.value, FC.nid(st)))):
+                            raise AnalysisError(f"{hqn}: returns `{_u(leaf)[:80]}`, not a closure defined in the method (shape not analysed)")
+        uniq: Dict[int, Tuple[ast.AST, ast.Return]] = {}
+        for K, ret in made:
+            uniq.setdefault(id(K), (K, ret))
+        for K, ret in uniq.values():
+            kqn = f"{hqn}.{K.name}" if K.name != "_lambda_" else f"{hqn}.<lambda>"
+            kline = getattr(K, "lineno", h.lineno)
+            kwname = K.args.kwarg.arg if K.args.kwarg else None
+            R.check(kwname is not None, rule, rel, kqn, "the callable takes the step's variables as keyword arguments (**kwargs)", "the callable the sweep calls as fn(**step) has no **keyword parameter: it cannot receive the step's variables by name", kline)
+            if kwname is None:
+                n_evals += 1
+                continue
+            FK = Flow(K)
+            own = set(FK.params) | set(FK.defnodes)
+            free_mutated = {rn for _s, rn in mutation_sites(FK.fn, {x.id for x in ast.walk(FK.fn) if isinstance(x, ast.Name)} - own)}
+            top = list(FK.fn.body)
+
+            def top_index(node: ast.AST) -> Optional[int]:
+                """Number of the top-level statement of the callable that contains *node*."""
+                for x in [node] + list(ancestors(node)):
+                    for j, s_ in enumerate(top):
+                        if s_ is x:
+                            return j
+                return None
+
+            def values(e: ast.AST, at: int) -> List[ast.AST]:
+                """*e* at node *at* of the callable, locals expanded; free variables by their value when the factory returns."""
+                out: List[ast.AST] = []
+                for x in FK.expand(e, at):
+                    free = {n.id for n in ast.walk(x) if isinstance(n, ast.Name) and isinstance(n.ctx, ast.Load) and n.id in FC.defnodes and n.id not in own}
+                    ys = FC.expand(x, FC.nid(ret), keep=tuple(sorted(own))) if free else [x]
+                    for y in ys:
+                        out += [leaf for leaf, _c in _split_ifexp(y)]
+                return out
+
+            Layer = Tuple[str, str]
+
+            def join(parts: List[Optional[List[Layer]]]) -> Optional[List[Layer]]:
+                out: List[Layer] = []
+                for p in parts:
+                    if p is None:
+                        return None
+                    out += p
+                return out
+
+            def layers(e: Optional[ast.AST], limit: int, depth: int = 0) -> Optional[List[Layer]]:
+                """The mappings *e* is layered from, lowest priority first: ('kw', name) the keyword arguments, ('key', k)
+                a literal entry, ('map', text) any other mapping; None when the construction is not understood."""
+                if e is None or depth > 8:
+                    return None
+                if isinstance(e, ast.Name):
+                    if e.id == kwname:
+                        return [("kw", kwname)]
+                    if e.id.startswith("__mutated_"):
+                        return built(e.id[len("__mutated_"):-2], limit, depth + 1)
+                    if e.id.startswith("__opaque_") or e.id in free_mutated:
+                        return None
+                    return [("map", e.id)]
+                if isinstance(e, ast.Attribute):
+                    return [("map", _u(e))]
+                if isinstance(e, ast.Dict):
+                    parts: List[Optional[List[Layer]]] = []
+                    for k_, v_ in zip(e.keys, e.values):
+                        if k_ is None:
+                            parts.append(layers(v_, limit, depth + 1))
+                        elif isinstance(k_, ast.Constant) and isinstance(k_.value, str):
+                            parts.append([("key", k_.value)])
+                        else:
+                            return None
+                    return join(parts)
+                if isinstance(e, ast.BinOp) and isinstance(e.op, ast.BitOr):
+                    return join([layers(e.left, limit, depth + 1), layers(e.right, limit, depth + 1)])
+                if isinstance(e, ast.DictComp) and len(e.generators) == 1 and not e.generators[0].ifs:
+                    m = kany(["{_k_: _v_ for (_k_, _v_) in _X_.items()}", "{_k_: _X_[_k_] for _k_ in _X_}"], e)
+                    return layers(m["_X_"], limit, depth + 1) if m else None
+                if isinstance(e, ast.Call):
+                    fnm = (dotted_name(e.func) or "").split(".")[-1]
+                    if isinstance(e.func, ast.Attribute) and e.func.attr == "copy" and not e.args and not e.keywords:
+                        return layers(e.func.value, limit, depth + 1)
+                    if isinstance(e.func, ast.Attribute) and e.func.attr == "items" and not e.args and not e.keywords:
+                        return layers(e.func.value, limit, depth + 1)
+                    if any(isinstance(a_, ast.Starred) for a_ in e.args):
+                        return None
+                    if fnm in ("dict", "MappingProxyType") and len(e.args) <= 1:
+                        parts = [layers(a_, limit, depth + 1) for a_ in e.args]
+                        parts += [layers(kw_.value, limit, depth + 1) if kw_.arg is None else [("key", kw_.arg)] for kw_ in e.keywords]
+                        return join(parts)
+                    if fnm == "ChainMap" and not e.keywords:  # the first mapping is searched first
+                        return join([layers(a_, limit, depth + 1) for a_ in reversed(e.args)])
+                return None
+
+            def built(name: str, limit: int, depth: int) -> Optional[List[Layer]]:
+                """Layers of a local mapping that is filled statement by statement (top-level statements of the callable
+                before statement number *limit* only)."""
+                cur: Optional[List[Layer]] = None
+                sites = [s for s, _r in mutation_sites(FK.fn, {name})]
+                idx = [top_index(s) for s in sites]
+                if any(j is None or j >= limit for j in idx):
+                    return None
+                for j, st in enumerate(top[:limit]):
+                    tg = st.targets if isinstance(st, ast.Assign) else [st.target] if isinstance(st, ast.AnnAssign) and st.value is not None else []
+                    if any(isinstance(t, ast.Name) and t.id == name for t in tg):
+                        if len(tg) != 1:
+                            return None
+                        vs = values(st.value, FK.nid(st))
+                        cur = layers(vs[0], j, depth + 1) if len(vs) == 1 else None
+                        if cur is None:
+                            return None
+                        continue
+                    if j not in idx:
+                        if any(isinstance(x, ast.Name) and x.id == name and isinstance(x.ctx, (ast.Store, ast.Del)) for x in ast.walk(st)):
+                            return None
+                        continue
+                    if cur is None:
+                        return None
+                    add: Optional[List[Layer]] = None
+                    if isinstance(st, ast.Expr) and isinstance(st.value, ast.Call) and kmatch(f"{name}.update", st.value.func) is not None and len(st.value.args) <= 1 and not any(isinstance(a_, ast.Starred) for a_ in st.value.args):
+                        parts = [single(a_, st, j, depth) for a_ in st.value.args]
+                        parts += [single(kw_.value, st, j, depth) if kw_.arg is None else [("key", kw_.arg)] for kw_ in st.value.keywords]
+                        add = join(parts)
+                    elif isinstance(st, ast.AugAssign) and isinstance(st.op, ast.BitOr) and isinstance(st.target, ast.Name) and st.target.id == name:
+                        add = single(st.value, st, j, depth)
+                    elif isinstance(st, ast.Assign) and len(st.targets) == 1 and kmatch(f"{name}[_K_]", st.targets[0]) is not None:
+                        k_ = st.targets[0].slice
+                        add = [("key", k_.value)] if isinstance(k_, ast.Constant) and isinstance(k_.value, str) else None
+                    elif isinstance(st, ast.For):
+                        m = (kmatch(f"for (_k_, _v_) in _Y_.items():\n    {name}[_k_] = _v_", st) or kmatch(f"for _k_ in _Y_:\n    {name}[_k_] = _Y_[_k_]", st)
+                             or kmatch(f"for _k_ in _Y_.keys():\n    {name}[_k_] = _Y_[_k_]", st))
+                        add = single(m["_Y_"], st, j, depth) if m else None
+                    if add is None:
+                        return None
+                    cur = cur + add
+                return cur
+
+            def single(e: ast.AST, st: ast.AST, j: int, depth: int) -> Optional[List[Layer]]:
+                vs = values(e, FK.nid(st))
+                return layers(vs[0], j, depth + 1) if len(vs) == 1 else None
+
+            def show(l: Layer) -> str:
+                return f"the literal entry '{l[1]}'" if l[0] == "key" else f"`{l[1]}`"
+
+            evals = [c for c in ast.walk(FK.fn) if isinstance(c, ast.Call) and isinstance(c.func, ast.Name) and c.func.id == "eval" and any(c is x for x in walk_no_nested(FK.fn))]
+            if not evals:
+                raise AnalysisError(f"{kqn}: no eval() call in the callable an expression is compiled to (the evaluation mechanism is not the analysed one)")
+            for c in evals:
+                n_evals += 1
+                b = _bind_args(c, ["source", "globals", "locals"])
+                if b is None or "source" not in b or not set(b) <= {"source", "globals", "locals"}:
+                    raise AnalysisError(f"{kqn}: arguments of `{_u(c)[:80]}` not understood")
+                at, lim = FK.nid(c), top_index(c)
+                if lim is None:
+                    raise AnalysisError(f"{kqn}: `{_u(c)[:80]}` is not inside the callable's body")
+                gl = values(b["globals"], at) if "globals" in b else []
+                lo = [x for x in (values(b["locals"], at) if "locals" in b else []) if not (isinstance(x, ast.Constant) and x.value is None)]
+                if "globals" not in b or not gl:
+                    R.check(False, rule, rel, kqn, _u(c), f"`{_u(c)[:100]}` evaluates the expression in the namespace of the evaluator's own module: the step's variables ({kwname}) are not in scope", getattr(c, "lineno", kline))
+                    continue
+                for g_ in gl:
+                    for l_ in lo or [None]:
+                        gs = layers(g_, lim)
+                        ls = layers(l_, lim) if l_ is not None else []
+                        if gs is None or ls is None:
+                            bad_e = l_ if ls is None else g_
+                            raise AnalysisError(f"{kqn}: the evaluation scope `{_u(bad_e)[:100]}` of `{_u(c)[:60]}` is not a layering of mappings this rule understands")
+                        order = list(reversed(ls)) + list(reversed(gs))  # name lookup order: locals, then globals; last writer first
+                        order = [l for l in order if not (l[0] == "key" and l[1] in _EVAL_MECHANISM_KEYS)]
+                        scope_txt = _u(g_) if l_ is None else f"globals {_u(g_)}, locals {_u(l_)}"
+                        if not any(l[0] == "kw" for l in order):
+                            R.check(False, rule, rel, kqn, _u(c), f"`{_u(c)[:100]}`: the step's variables (`{kwname}`) are not part of the evaluation scope ({scope_txt[:100]}); the expression is not evaluated on this step's values", getattr(c, "lineno", kline))
+                        else:
+                            over = order[:next(j for j, l in enumerate(order) if l[0] == "kw")]
+                            R.check(not over, rule, rel, kqn, _u(c), f"`{_u(c)[:100]}` with scope {scope_txt[:120]}: {', '.join(show(l) for l in over)} {'is' if len(over) == 1 else 'are'} looked up before the step's variables (`{kwname}`): a sweep variable named like one of {'its' if len(over) == 1 else 'their'} entries (e.g. a helper function name such as min / max / abs) evaluates to that entry instead of the step's value, so the computed parameter is not the expression over this step's variables" if over else "", getattr(c, "lineno", kline))
+    if n_evals == 0:
+        raise AnalysisError("no evaluation site found in the callables of the sweep's parametric expressions")
+
+
 def run(repo: Repo, R: Report) -> None:
     R.assume(
         "itertools.product varies the rightmost sequence fastest; numpy.linspace/logspace return the documented values for their arguments",
@@ -1210,6 +1685,7 @@ def run(repo: Repo, R: Report) -> None:
     layers = _merge_layers(nfunc(repo, SWEEP, "_merge_call_parameters", copyprop="all"), {base_p, expr_p})
     ok = layers == [base_p, expr_p]
     R.check(ok, r_m, SWEEP, "_merge_call_parameters", "merged = dict(base_kwargs); merged.update(expression_outputs)", "computed-by-expression values no longer take precedence over provided ones", mg.lineno)
+    _expression_scope(repo, R)
 
     # ------------------------------------------------------------------ D3
     # Each generated body is analysed on its normal form with value expansion: the element call is found by its
@@ -1410,7 +1886,7 @@ def run(repo: Repo, R: Report) -> None:
         R.check(ok, r_p, NODES, qn, "processor.observer_context = context before process()", "the swept processor has no context to publish <var>_values into", f.lineno)
 
     # ------------------------------------------------------------------ D5
-    r_y = R.rule("C03-D5-yaml-conversion", "YAML variable specs map to the documented spec classes and defaults: [a, b] of two numbers -> range with 10 steps; other lists and {values} -> sequence as given; {lo, hi, steps[, scale=linear][, endpoint=True]} -> range; {from_context: key}; the [a, b] shorthand is applied to the bare-list spelling only", 7)
+    r_y = R.rule("C03-D5-yaml-conversion", "YAML variable specs map to the documented spec classes and defaults: [a, b] of two numbers -> range with 10 steps; other lists and {values} -> sequence as given; {lo, hi, steps[, scale=linear][, endpoint=True]} -> range; {from_context: key}; the [a, b] shorthand is applied to the bare-list spelling only; an option the conversion leaves out falls to the spec class' own default, which is the documented one", 7)
     cv = repo.func(PREP, "_convert_var_specs")
     FY = Flow(nfunc(repo, PREP, "_convert_var_specs", copyprop="all"))
     vl = next((n for n in walk_no_nested(FY.fn) if isinstance(n, ast.For) and isinstance(n.target, ast.Tuple) and len(n.target.elts) == 2 and isinstance(n.target.elts[1], ast.Name)), None)
@@ -1426,9 +1902,42 @@ def run(repo: Repo, R: Report) -> None:
         return bool(xs) and all(kany(patterns, x) is not None for x in xs)
 
     rs = [c for c in calls_y if call_attr(c) == "RangeSpec" or call_name(c) == "RangeSpec"]
+    # the other side of the conversion: the spec class the calls construct.  Positional arguments are bound in the order
+    # of its fields, and a field the conversion leaves out takes the class' default - which therefore has to be the
+    # documented one (scale 'linear', endpoint True), or the [a, b] shorthand and every spec that omits the option change.
+    rcls = None
+    for c in rs:
+        try:
+            hit = repo.resolve_name(repo.module(PREP), c.func, cv)
+        except Exception:
+            hit = None
+        if hit is not None and isinstance(hit[1], ast.ClassDef):
+            rcls = hit
+    if rs and rcls is None:
+        raise AnalysisError("_convert_var_specs: the class constructed for range specs was not found in the repo")
+    r_fields: List[Tuple[str, Optional[ast.AST], ast.AST]] = []
+    if rcls is not None:
+        repo.consulted.add(rcls[0].rel)
+        init = next((st for st in rcls[1].body if isinstance(st, FuncNode) and st.name == "__init__"), None)
+        if init is not None:
+            pa = init.args.posonlyargs + init.args.args
+            dfl = [None] * (len(pa) - len(init.args.defaults)) + list(init.args.defaults)
+            r_fields = [(a_.arg, d_, a_) for a_, d_ in list(zip(pa, dfl))[1:]]
+        else:
+            for st in rcls[1].body:
+                if isinstance(st, ast.AnnAssign) and isinstance(st.target, ast.Name) and "ClassVar" not in _u(st.annotation):
+                    d_ = st.value
+                    m_ = kany(["field(default=_X_)", "dataclasses.field(default=_X_)"], d_) if d_ is not None else None
+                    r_fields.append((st.target.id, m_["_X_"] if m_ else d_, st))
+    r_names = [f_[0] for f_ in r_fields]
+    if rs and not {"lo", "hi", "steps", "scale", "endpoint"} <= set(r_names):
+        raise AnalysisError(f"{rcls[1].name if rcls else 'RangeSpec'}: fields lo, hi, steps, scale, endpoint not found ({r_names})")
+    omitted: Set[str] = set()
     two, full = [], []
     for c in rs:
-        b = _bind_args(c, ["lo", "hi", "steps", "scale", "endpoint"])
+        b = _bind_args(c, r_names)
+        if b is not None:
+            omitted |= {"scale", "endpoint"} - set(b)
         if b is None or not {"lo", "hi", "steps"} <= set(b) <= {"lo", "hi", "steps", "scale", "endpoint"}:
             continue
         if (y_is(c, b["lo"], f"float({sp}[0])") and y_is(c, b["hi"], f"float({sp}[1])") and y_is(c, b["steps"], "10")
@@ -1439,6 +1948,10 @@ def run(repo: Repo, R: Report) -> None:
             full.append(c)
     R.check(len(two) == 1, r_y, PREP, "_convert_var_specs", "[a, b] -> RangeSpec(lo=a, hi=b, steps=10)", "the two-number shorthand is not a 10-step linear range from a to b", cv.lineno)
     R.check(len(full) == 1 and len(rs) == 2, r_y, PREP, "_convert_var_specs", "{lo, hi, steps, scale='linear', endpoint=True} -> RangeSpec field by field", "range fields are swapped or documented defaults changed", cv.lineno)
+    for f_ in sorted(omitted):
+        name_, d_, st_ = next(x for x in r_fields if x[0] == f_)
+        doc = {"scale": ["'linear'"], "endpoint": ["True"]}[f_]
+        R.check(d_ is not None and kany(doc, d_) is not None, r_y, rcls[0].rel, rcls[1].name, f"{f_} defaults to {doc[0]} (left to the class by the conversion)", f"`{_u(st_)[:80]}`: the conversion of YAML range specs leaves `{f_}` to the class default, which is not the documented {doc[0]}: the [a, b] shorthand (and every spec that omits the option) expands to a different sequence", getattr(st_, "lineno", cv.lineno))
     # the [a, b] shorthand is a property of the *bare list* spelling: where it is applied, the value tested is the
     # variable's own YAML value (the loop variable), not something unwrapped from a mapping such as {values: [a, b]}
     for c in two:
@@ -1541,30 +2054,68 @@ def run(repo: Repo, R: Report) -> None:
             ok, bad_c = False, bad_c or c
     R.check(ok, r_mat, SWEEP, "_materialize_sequences", "np.linspace(spec.lo, spec.hi, spec.steps, endpoint=spec.endpoint)", f"`{_u(bad_c)[:100]}`: a linear range is not built from (lo, hi, steps, endpoint) in their roles, for scale == 'linear' only" if bad_c is not None else "a linear range is not built from (lo, hi, steps, endpoint) in their roles", getattr(bad_c, "lineno", ms.lineno))
     logs = [c for c in all_calls if call_name(c) in ("np.logspace", "numpy.logspace")]
+    # The upper bound is decided per scenario (endpoint set / not set): the branch edges that are impossible in the
+    # scenario are blocked, the stop argument is expanded along the remaining paths (so an if / else, a re-assignment
+    # behind a guard and a conditional expression are the same thing) and its algebraic normal form is compared with
+    # the documented bound: log10(hi) when the end point is included (or left to logspace's own endpoint=False), and
+    # log10(lo) + (log10(hi) - log10(lo)) * (steps - 1) / steps - the bound shrunk by one step *in log space* - otherwise.
+    val6, _lg6 = _range_algebra(spec)
+    sA, sB, sN = _r(_p_sym("A")), _r(_p_sym("B")), _r(_p_sym("n"))
+    shrunk = _r_add(sA, _r_div(_r_mul(_r_add(sB, sA, -1), _r_add(sN, _r(_p_const(1)), -1)), sN))
+    SCEN6 = (("endpoint set", frozenset(F6.edges(neg6(a_endpoint))), neg6(a_endpoint), True), ("endpoint not set", frozenset(F6.edges(a_endpoint)), a_endpoint, False))
     n_end = n_open = 0
     bad_c = None
+    why6 = ""
     for c in logs:
         b = _bind_args(c, ["start", "stop", "num", "endpoint", "base"])
         good = (b is not None and {"start", "stop", "num"} <= set(b) <= {"start", "stop", "num", "endpoint", "base"} and arg_is(c, b["start"], f"np.log10({spec}.lo)", f"numpy.log10({spec}.lo)")
-                and arg_is(c, b["num"], f"{spec}.steps") and ("endpoint" not in b or kmatch("True", b["endpoint"]) is not None) and ("base" not in b or kany(["10", "10.0"], b["base"]) is not None)
+                and arg_is(c, b["num"], f"{spec}.steps") and ("base" not in b or kany(["10", "10.0"], b["base"]) is not None)
                 and F6.holds_at(c, neg6(a_linear)))
         if good:
-            # the upper bound may be chosen by the branch the call sits in or by a conditional expression
-            at_end, at_open = F6.holds_at(c, a_endpoint), F6.holds_at(c, neg6(a_endpoint))
-            for x in F6.expand(b["stop"], F6.nid(c)):
-                for leaf, conds in _leaves(x):
-                    is_end = at_end or any(lab in _edges(t, a_endpoint) for t, lab in conds)
-                    is_open = at_open or any(lab in _edges(t, neg6(a_endpoint)) for t, lab in conds)
-                    if is_end and not is_open:
-                        good = good and kany([f"np.log10({spec}.hi)", f"numpy.log10({spec}.hi)"], leaf) is not None
-                        n_end += 1
-                    elif is_open and not is_end:
-                        n_open += 1  # the shrunk upper bound is numerical content (not decided)
-                    else:
-                        good = False
+            only = {True: F6.holds_at(c, a_endpoint), False: F6.holds_at(c, neg6(a_endpoint))}  # the call is evaluated in one scenario only
+            for label, be, anti, ep in SCEN6:
+                if only[not ep] and not only[ep]:
+                    continue
+                if F6.nid(c) not in F6.reachable(be):
+                    continue
+                # does logspace itself include the end point in this scenario?
+                incl: Set[bool] = set()
+                for x in (F6.expand(b["endpoint"], F6.nid(c), be) if "endpoint" in b else [ast.Constant(value=True)]):
+                    for leaf, conds in _split_ifexp(x):
+                        if any(lab in _edges(t, anti) for t, lab in conds):
+                            continue
+                        if isinstance(leaf, ast.Constant) and isinstance(leaf.value, bool):
+                            incl.add(leaf.value)
+                        elif a_endpoint(leaf) is True:
+                            incl.add(ep)
+                        else:
+                            good, why6 = False, why6 or f"its endpoint argument `{_u(leaf)[:60]}` is neither a constant nor the spec's endpoint"
+                if not good or len(incl) != 1:
+                    good, why6 = False, why6 or f"its endpoint argument is not decided when {label}"
+                    break
+                inc = incl.pop()
+                if ep and not inc:
+                    good, why6 = False, why6 or "the end point is left out although the spec asks for it"
+                    break
+                want, wtxt = (shrunk, "log10(lo) + (log10(hi) - log10(lo)) * (steps - 1) / steps (hi pulled back by one step in log space)") if (not ep and inc) else (sB, "log10(hi)")
+                for x in F6.expand(b["stop"], F6.nid(c), be):
+                    for leaf, conds in _split_ifexp(x):
+                        if any(lab in _edges(t, anti) for t, lab in conds):
+                            continue  # an arm taken in the other scenario only
+                        v = val6(leaf)
+                        if v is None:
+                            raise AnalysisError(f"_materialize_sequences: the upper bound `{_u(leaf)[:100]}` of a log range ({label}) is not arithmetic over lo / hi / steps / log10 that the normal form covers")
+                        if v == LINEAR:
+                            good, why6 = False, why6 or f"when {label} its upper bound `{_u(leaf)[:100]}` is shortened on the linear span of lo..hi and only then passed through log10: the grid is geometric with the wrong ratio; documented: {wtxt}"
+                        elif not _r_eq(v, want):
+                            good, why6 = False, why6 or f"when {label} its upper bound `{_u(leaf)[:100]}` is not {wtxt}"
+                        elif ep:
+                            n_end += 1
+                        else:
+                            n_open += 1
         if not good:
             bad_c = bad_c or c
-    R.check(bad_c is None and n_end >= 1 and n_open >= 1, r_mat, SWEEP, "_materialize_sequences", "np.logspace(log10(lo), log10(hi | adjusted), steps)", (f"`{_u(bad_c)[:100]}`: " if bad_c is not None else "") + "a log range is not built from log10(lo), log10(hi), steps (hi itself exactly when endpoint is set)", getattr(bad_c, "lineno", ms.lineno))
+    R.check(bad_c is None and n_end >= 1 and n_open >= 1, r_mat, SWEEP, "_materialize_sequences", "np.logspace(log10(lo), log10(hi | adjusted), steps)", (f"`{_u(bad_c)[:100]}`: " if bad_c is not None else "") + "a log range is not built from log10(lo), log10(hi), steps (hi itself exactly when endpoint is set" + (f"): {why6}" if why6 else ")"), getattr(bad_c, "lineno", ms.lineno))
     expl = [c for c in all_calls if kmatch("list(_X_)", c) and arg_is(c, c.args[0], f"{spec}.values")]
     ok = bool(expl) and all(F6.holds_at(c, a_kind("SequenceSpec")) for c in expl)
     R.check(ok, r_mat, SWEEP, "_materialize_sequences", "seq_list = list(spec.values)", "explicit sequences are reordered / deduplicated (or taken for another kind of variable)", ms.lineno)
